@@ -433,7 +433,8 @@ def directed():
         pool = list(range(int(ii.min), int(ii.max) + 1))
         keys = sorted(rng.sample(pool, nk))
         rng.shuffle(keys)
-        nonkeys = [x for x in rng.sample(pool, min(len(pool), nk + 6)) if x not in set(keys)][:5]
+        ks_ = set(keys)
+        nonkeys = [x for x in rng.sample(pool, min(len(pool), nk + 6)) if x not in ks_][:5]
         for init in (3, [(i * 7) % 11 for i in range(nk)]):
             yield {"keys": keys, "kdtype": kd, "mod": None, "init": init, "vdtype": "int64", "nonkeys": nonkeys, "style": "dense",
                    "ops": [{"op": "getv", "table": "t", "keys": keys[:5]}, {"op": "set1", "table": "t", "keys": [keys[1]], "vals": [1000]}, {"op": "contains", "table": "t", "keys": keys[:3] + nonkeys[:2]},
